@@ -145,7 +145,13 @@ class H2Protocol:
         self, headers: Optional[List[Tuple[bytes, bytes]]] = None, settings: Optional[str] = None
     ) -> None:
         if settings is not None:
-            self.connection.initiate_upgrade_connection(settings)
+            try:
+                self.connection.initiate_upgrade_connection(settings)
+            except Exception:
+                # The HTTP2-Settings header is client input, it may
+                # not be base64, or not a settings payload.
+                await self.send(Closed())
+                return
         else:
             self.connection.initiate_connection()
         await self._flush()
